@@ -309,6 +309,8 @@ def load_known():
     for fn in sorted(os.listdir(fd)) if os.path.isdir(fd) else []:
         if fn.endswith(".json"):
             d = json.load(open(os.path.join(fd, fn)))
+            for k in d.get("findings", []):
+                k.setdefault("unit", fn[:-5])
             out["findings"] += d.get("findings", [])
             out["fixed"] += d.get("fixed", [])
     return out
@@ -432,6 +434,16 @@ def decide(prop, tier, seed):
             continue
         printed.add(key)
         print(f"KNOWN-FINDING: property={prop} {k['what']} [input: {k.get('input','')}]")
+    # findings registered with a native demonstration only (no verifier obligation can express them with the functions
+    # under contract): always listed, so that the known defect is visible on every run
+    rd = ready()
+    for k in kf:
+        if not k.get("obligations") and k["what"] not in printed:
+            unit_of = k.get("unit")
+            if rd is not None and unit_of and unit_of not in rd["units"] and unit_of not in rd["kani"]:
+                continue
+            printed.add(k["what"])
+            print(f"KNOWN-FINDING: property={prop} {k['what']} [native demonstration only; input: {k.get('input','')}]")
     # known findings count as obligations that are NOT discharged: evidence must stay honest
     vio_lines = []
     for o, ur in violations:
